@@ -362,7 +362,68 @@ func zzC06Waiter() {
 		<-w2.finished
 		vAssert(w2.err == nil || w2.err == context.Canceled || zzIsErr(w2.err, errors.ErrNotExist), "second waiter returned an undocumented error")
 	}
+	if replaced {
+		// the record written over the expiring one has no expiration: no waiter waking up late may take it away
+		g, e := st.Get(bg, "a")
+		vAssert(e == nil && len(g.Value) == 1 && g.Value[0] == 9, "a record without expiration, written over an expiring one, disappeared")
+	}
 	s.lock.Lock()
 	vAssert(len(s.verChange) == 0, "waiter bookkeeping left behind")
 	s.lock.Unlock()
+}
+
+// C06/C07: a record whose expiration is as far ahead as a time.Duration reaches (the "never" idiom now+MaxInt64,
+// for which Time.Sub is at or near its maximum) is, for a waiter, a record without expiration: the waiter parks,
+// it does not arm an expiry timer that fires at once and go round in circles. time.NewTimer is replaced for
+// this entry by a stub that records the requested durations and never fires within the run.
+var zzNeverDurations []time.Duration
+
+func zzNeverTimer(d time.Duration) *time.Timer {
+	zzNeverDurations = append(zzNeverDurations, d)
+	t := new(time.Timer)
+	t.C = make(chan time.Time)
+	return t
+}
+
+func zzNeverTimerStop(t *time.Timer) bool { return true }
+
+func zzC06WaiterNever() {
+	st := New()
+	s := st.(*service)
+	bg := context.Background()
+	zzNeverDurations = nil
+	exp := time.Now().Add(time.Duration(1<<63 - 1))
+	r, err := st.Put(bg, kvs.Record{Key: "a", Value: []byte{1}, ExpiresAt: &exp})
+	vAssert(err == nil, "Put failed")
+	vGuardedBy(s.recs, &s.lock)
+	vGuardedBy(s.verChange, &s.lock)
+	w := &zzWaiter{key: "a", ver: r.Version, ctx: zzNewCtx(), finished: make(chan struct{})}
+	vSpawn("waiter", func() {
+		w.err = st.WaitForVersionChange(w.ctx, w.key, w.ver)
+		close(w.finished)
+	})
+	vSettle()
+	for _, d := range zzNeverDurations {
+		vAssert(d > time.Duration(1<<62), "the expiry timer of a far-future record was armed with a short or negative duration")
+	}
+	vReach("parked")
+	g, e := st.Get(bg, "a")
+	vAssert(e == nil && g.Version == r.Version, "a record with a far-future expiration is not there")
+	if vChoose("end", 2) == 0 {
+		_, e := st.Put(bg, kvs.Record{Key: "a", Value: []byte{2}})
+		vAssert(e == nil, "Put failed")
+		<-w.finished
+		vAssert(w.err == nil, "a waiter on a rewritten record did not return nil")
+	} else {
+		w.ctx.cancel()
+		<-w.finished
+		vAssert(w.err == context.Canceled, "a cancelled waiter did not return the context's error")
+	}
+	for _, d := range zzNeverDurations {
+		vAssert(d > time.Duration(1<<62), "the expiry timer of a far-future record was armed with a short or negative duration")
+	}
+	s.lock.Lock()
+	vAssert(len(s.verChange) == 0, "waiter bookkeeping left behind")
+	s.lock.Unlock()
+	vReach("ended")
 }
